@@ -446,8 +446,8 @@ def prepare(scen):
     ctx = LiveCtx()
     ctx.spell = scen.get('spell', 0)
     decl = scen.get('decl') or {}
-    for name, vals in decl.get('enums', []):
-        ctx.add_enum(name, vals)
+    for e in decl.get('enums', []):
+        ctx.add_enum(*e)
     for name, base, attrs in decl.get('subs', []):
         ctx.add_sub(name, base, {k: ctx.dec(v) for k, v in (attrs or {}).items()})
     create_err = None
@@ -511,8 +511,8 @@ def finish_env(scen, ctx, values):
     bounds = []
     _lits([scen.get('ty'), scen.get('tys'), (scen.get('decl') or {}).get('classes'), scen.get('decls')], lits, bounds)
     scen['_bounds'] = bounds
-    for _, vals in (scen.get('decl') or {}).get('enums', []):
-        lits.extend(vals)
+    for e in (scen.get('decl') or {}).get('enums', []):
+        lits.extend(e[1])
     for l in lits:
         try:
             values.append(ctx.dec(l))
@@ -708,8 +708,8 @@ def run_process(scen):
     ctx = LiveCtx()
     ctx.spell = scen.get('spell', 0)
     decl = scen.get('decl') or {}
-    for name, vals in decl.get('enums', []):
-        ctx.add_enum(name, vals)
+    for e in decl.get('enums', []):
+        ctx.add_enum(*e)
     for name, base, attrs in decl.get('subs', []):
         ctx.add_sub(name, base, {k: ctx.dec(v) for k, v in (attrs or {}).items()})
     cls = None
